@@ -7,8 +7,8 @@ of `pkg/sdpunmarshaler` (`Unmarshal`).  Core Lean only.
 
 What is modelled faithfully: line splitting (`\r` removed, split at `\n`, empty lines skipped, the
 `x=` shape check), the four states, and the handlers of `v o s i e p c b t r z k a m` in session and
-media position.  What is NOT: `u=` (net/url.Parse), a two-field `c=IN <address>` whose address contains
-`.` or `:` (net.ParseIP), and any line other than `s= i= e= p= k=` that contains a byte ≥ 0x80
+media position.  What is NOT: `u=` (net/url.Parse), a two-field `c=IN <address>` whose address is IPv6
+text (net.ParseIP; dotted-decimal IPv4 is modelled), and any line other than `s= i= e= p= k=` that contains a byte ≥ 0x80
 (Unicode-aware `strings` functions): the result is `unm`, and such cases are excluded from the
 comparison with the implementation (counted in the evidence).  An error found on an earlier line
 wins over `unm` on a later line, exactly as the sequential Go loop behaves.
@@ -120,7 +120,23 @@ def originOk (value : Str) : Bool :=
           else if hasHexLetter tmp then (parseUintHex 64 tmp).isSome
           else (parseUint 64 (originNumber tmp)).isSome
 
-/-- `unmarshalConnectionInformation`: `ok ()`, `err`, or `unm` (`net.ParseIP` is not modelled). -/
+/-- one decimal octet of `netip.parseIPv4Fields`: digits only, no leading zero, at most 255 -/
+def octetOk (p : Str) : Bool :=
+  !p.isEmpty && p.all isDigit && (p.length == 1 || p.head? != some 48) &&
+    (match decVal p 0 with | some n => decide (n ≤ 255) | none => false) && decide (p.length ≤ 3)
+
+/-- `net.ParseIP` on a text whose first special character is `.`: dotted-decimal IPv4 -/
+def ipv4Ok (a : Str) : Bool :=
+  match splitOn 46 a with
+  | [p0, p1, p2, p3] => octetOk p0 && octetOk p1 && octetOk p2 && octetOk p3
+  | _ => false
+
+/-- the first of `.`, `:`, `%` in an address text (`netip.ParseAddr` dispatches on it) -/
+def firstSpecial : Str → Option UInt8
+  | [] => none
+  | c :: cs => if c = 46 ∨ c = 58 ∨ c = 37 then some c else firstSpecial cs
+
+/-- `unmarshalConnectionInformation`: `ok ()`, `err`, or `unm` (`net.ParseIP` of an IPv6 text is not modelled). -/
 def connOk (value : Str) : Res Unit :=
   if trimSpace value = b!"IN" then .ok () else
   let value := replace1 b!"IN IPV4 " b!"IN IP4 " value
@@ -130,8 +146,12 @@ def connOk (value : Str) : Res Unit :=
   | [_] => .err
   | f0 :: f1 :: rest =>
     if rest.isEmpty && toUpper f0 = b!"IN" && f1 ≠ b!"IP4" && f1 ≠ b!"IP6" then
-      -- net.ParseIP(f1): nil for a text without '.' and ':'; otherwise not modelled
-      if f1.any (fun c => c == 46 || c == 58) then .unm else .err
+      -- net.ParseIP(f1): dotted decimal is modelled, IPv6 text is not; nil for anything else.  When the address
+      -- parses, the fields become IN IP4|IP6 <address> and the line is accepted.
+      match firstSpecial f1 with
+      | some 46 => if ipv4Ok f1 then .ok () else .err
+      | some 58 => .unm
+      | _ => .err
     else if toUpper f0 ≠ b!"IN" then .err
     else if f1 ≠ b!"IP4" ∧ f1 ≠ b!"IP6" then .err
     else .ok ()
